@@ -69,6 +69,7 @@ type caseC11 struct {
 	ReadActs []action   `json:"read_acts"` // per Read call (cycled)
 	LogActs  []action   `json:"log_acts"`  // per Write on the log writer (cycled)
 	Entry    string     `json:"entry"`     // ParseFile | InterpretFile | UnmarshalFile
+	Target   string     `json:"target"`    // UnmarshalFile: ptr (default) | value | nil | int
 	CloseAct action     `json:"close_act"`
 }
 
@@ -156,7 +157,16 @@ func runC11(c caseC11) histC11 {
 			_, _, err = bcl.InterpretFile(f, opts...)
 		case "UnmarshalFile":
 			var tgt struct{ Name string }
-			err = bcl.UnmarshalFile(f, &tgt, opts...)
+			switch c.Target {
+			case "value":
+				err = bcl.UnmarshalFile(f, tgt, opts...)
+			case "nil":
+				err = bcl.UnmarshalFile(f, nil, opts...)
+			case "int":
+				err = bcl.UnmarshalFile(f, 5, opts...)
+			default:
+				err = bcl.UnmarshalFile(f, &tgt, opts...)
+			}
 		default:
 			_, err = bcl.ParseFile(f, opts...)
 		}
@@ -254,6 +264,9 @@ func checkC11(c caseC11) (viol string, nontrivial bool, feats []string) {
 			case "UnmarshalFile":
 				var tgt struct{ Name string }
 				werr = bcl.Unmarshal([]byte(delivered), &tgt, bcl.OptLogger(io.Discard), bcl.OptOutput(io.Discard))
+				if c.Target != "" && c.Target != "ptr" && werr == nil {
+					werr = fmt.Errorf("a target that is not a pointer cannot be bound")
+				}
 			default:
 				_, werr = bcl.Parse([]byte(delivered), "f", bcl.OptLogger(io.Discard))
 			}
@@ -351,6 +364,9 @@ func genAction(t *rapid.T, maxWait int) action {
 func genC11(t *rapid.T) caseC11 {
 	var c caseC11
 	c.Entry = gen.Pick(t, "entry", []string{"ParseFile", "ParseFile", "InterpretFile", "UnmarshalFile"})
+	if c.Entry == "UnmarshalFile" {
+		c.Target = gen.Pick(t, "target", []string{"ptr", "ptr", "ptr", "value", "nil", "int"})
+	}
 	in := inputSpec{LexAt: -1, Wide: gen.Bool(t, "wide"), NoFinal: gen.Chance(t, 20, "nofinal")}
 	perPage := 4096 / 8
 	if in.Wide {
@@ -406,6 +422,12 @@ func genC11(t *rapid.T) caseC11 {
 			st.N = 0
 		}
 		c.Script = append(c.Script, st)
+	}
+	if gen.Chance(t, 6, "zerorun") {
+		// a long run of consecutive zero-byte reads somewhere
+		at := gen.Int(t, 0, len(c.Script), "zerorunat")
+		run := make([]readStep, gen.Int(t, 18, 40, "zerorunlen"))
+		c.Script = append(c.Script[:at:at], append(run, c.Script[at:]...)...)
 	}
 	switch gen.Weighted(t, "ending", 45, 25, 15, 15) {
 	case 1: // a read error at some step
